@@ -96,13 +96,14 @@ def grammar_jobs(thorough, seed):
         job("G1: every 1-statement program, <= 3 expansions, <= 1 planted fault", gcfg(1, 1, 3, 0, 1, False), exhaustive=True)
         job("G2: every 2-statement program, <= 3 expansions", gcfg(2, 2, 3, 0, 0, False), exhaustive=True)
         job("GM: every single token mutation of every 1-expansion program", gcfg(1, 1, 1, 1, 0, False, charmuts=False), exhaustive=True)
-        job("S1: simulated 1-4 statements, <= 3 mutations", gcfg(1, 4, 100000, 3, 1, True), sim=1500, depth=400, sd=seed * 7 + 1, workers=1)
-        job("S2: simulated 5-25 statements, <= 3 mutations", gcfg(5, 25, 100000, 3, 2, True), sim=250, depth=1500, sd=seed * 7 + 2, workers=1)
-        job("S3: simulated 26-60 statements, <= 3 mutations", gcfg(26, 60, 100000, 3, 2, True), sim=100, depth=3000, sd=seed * 7 + 3, workers=1)
+        job("S1: simulated 1-4 statements, <= 3 mutations", gcfg(1, 4, 100000, 3, 1, True), sim=2500, depth=400, sd=seed * 7 + 1, workers=1)
+        job("S2: simulated 5-25 statements, <= 3 mutations", gcfg(5, 25, 100000, 3, 2, True), sim=300, depth=1500, sd=seed * 7 + 2, workers=1)
+        job("S3: simulated 26-60 statements, <= 3 mutations", gcfg(26, 60, 100000, 3, 2, True), sim=120, depth=3000, sd=seed * 7 + 3, workers=1)
     else:
         job("G1: every 1-statement program, <= 5 expansions, <= 1 planted fault", gcfg(1, 1, 5, 0, 1, False), workers=8, exhaustive=True)
         job("G2: every 2-statement program, <= 4 expansions", gcfg(2, 2, 4, 0, 0, False), workers=8, exhaustive=True)
-        job("GM: every single mutation of every <= 2-expansion program", gcfg(1, 1, 2, 1, 0, False), workers=8, exhaustive=True)
+        job("GM: every single token mutation of every <= 2-expansion program", gcfg(1, 1, 2, 1, 0, False, charmuts=False), workers=8, exhaustive=True)
+        job("GC: every single character mutation of every 1-expansion program", gcfg(1, 1, 1, 1, 0, False, charmuts=True), workers=8, exhaustive=True)
         for i in range(4):
             job("S1.%d: simulated 1-4 statements, <= 3 mutations" % i, gcfg(1, 4, 100000, 3, 1, True), sim=15000, depth=400,
                 sd=seed * 7 + 11 + i, workers=1)
@@ -265,6 +266,11 @@ def main(run):
     run.note("grammar_terminal_classes_used", len(texts.classes))
     run.note("grammar_mutation_kinds", dict(texts.mutkinds))
     run.note("grammar_long_programs_26_60", texts.long)
+    missing = {"del", "dup", "swap", "rep", "cdel", "cins", "crep"} - set(texts.mutkinds)
+    if missing:
+        raise MachineryError(f"mutation kinds never generated: {sorted(missing)} (vacuous generator)")
+    if texts.long < 20:
+        raise MachineryError(f"only {texts.long} long programs (26-60 statements) were generated")
     unused = sorted(set(G.REPS) - set(texts.classes))
     if unused:
         run.note("grammar_classes_never_generated", unused)
